@@ -37,6 +37,30 @@ def install_natives(m):
             mach.store(cap_ref, llsym.T("int", n=64), cap)
         return znwm(mach, cap + 1)
 
+    def m_mutate(mach, this, pos, len1, sp, len2):
+        """basic_string::_M_mutate(pos, len1, s, len2): reallocate and splice (libstdc++ layout: ptr, length, {cap|buf[16]})."""
+        I64 = llsym.T("int", n=64)
+        p = mach.load(this, I64)
+        length = mach.load(this + 8, I64)
+        if not all(isinstance(x, int) for x in (p, length, pos, len1, len2, sp)):
+            raise EngineLimit("basic_string::_M_mutate with symbolic arguments")
+        cap = 15 if p == this + 16 else mach.load(this + 16, I64)
+        how_much = length - pos - len1
+        new_cap = length + len2 - len1
+        if new_cap > cap and new_cap < 2 * cap:
+            new_cap = 2 * cap
+        r = znwm(mach, new_cap + 1)
+        for i in range(pos):
+            mach.mem[r + i] = mach.readbyte(p + i)
+        if sp and len2:
+            for i in range(len2):
+                mach.mem[r + pos + i] = mach.readbyte(sp + i)
+        for i in range(how_much):
+            mach.mem[r + pos + len2 + i] = mach.readbyte(p + pos + len1 + i)
+        mach.store(this, I64, r)
+        mach.store(this + 16, I64, new_cap)
+        return None
+
     def memcmp(mach, a, b, n):
         if not isinstance(n, int):
             raise EngineLimit("memcmp with symbolic length")
@@ -69,6 +93,7 @@ def install_natives(m):
     m.natives["@_ZdaPv"] = lambda mach, p: None
     m.natives["@_ZdlPvm"] = lambda mach, p, n: None
     m.natives["@_ZNSt7__cxx1112basic_stringIcSt11char_traitsIcESaIcEE9_M_createERmm"] = m_create
+    m.natives["@_ZNSt7__cxx1112basic_stringIcSt11char_traitsIcESaIcEE9_M_mutateEmmPKcm"] = m_mutate
     m.natives["@memcmp"] = memcmp
     m.natives["@bcmp"] = memcmp
     m.natives["@strlen"] = strlen
